@@ -33,6 +33,7 @@ registry! {
     c10::C10,
     c11::C11,
     c12::C12,
+    c13::C13,
     c14::C14,
     c15::C15,
 }
